@@ -116,6 +116,26 @@ def opCalibCode : P String := do
     | none => return "ok none"
     | some b => return s!"ok {b} {Wire.render (thrAtPos s b)} {cumCorrect s b}"
 
+/-- C16: the code's `max_tpr` / `max_tnr` routes (Float twin): position and stored threshold -/
+def opCalibRateCode : P String := do
+  let which ← next
+  let n ← nat
+  let ds ← arr Float n
+  let ls ← intArr n
+  let r ← scalar Float
+  finish
+  match labelsOf ls with
+  | .error e => throw e
+  | .ok labels =>
+    let l := ds.toList.zip labels
+    let res ← match which with
+      | "max_tpr" => pure (calibrateTprCode r l)
+      | "max_tnr" => pure (calibrateTnrCode r l)
+      | _ => throw s!"unknown rate strategy {which}"
+    match res with
+    | none => return "ok none"
+    | some (i, thr) => return s!"ok {i} {Wire.render thr}"
+
 def opValidateCalib : P String := do
   let strat ← next
   let rd : P (PyNum Rat) := do
@@ -512,6 +532,7 @@ def dispatch : P String := do
   | "check_input" => opCheckInput
   | "calib" => opCalib
   | "calib_code" => opCalibCode
+  | "calib_rate_code" => opCalibRateCode
   | "validate_calib" => opValidateCalib
   | _ => throw s!"unknown op {op}"
 
